@@ -266,6 +266,9 @@ Tick(d) ==
   /\ now' = now + d /\ rep' = NoMsg /\ obs' = "tick"
   /\ UNCHANGED <<prov, pool, sess, used, seen, phase, net, pre, clean, nex, nextId>>
 
+\* (The authenticated branch exists twice, in server_ip.go and in server_scion.go;
+\* Probe stands for a request to either listener - the recorded probes name the
+\* listener and are judged alike.)
 \* another client of the same server (session 0) sends an authenticated request
 \* with n cookie/placeholder fields, a unique identifier of u bytes and a cookie
 \* under the current key
